@@ -15,8 +15,10 @@ Open Scope Z_scope.
 (* The whole law holds at every step of every history of get / set / del / add_trait /
    remove_trait, for every class hierarchy (any depth, any base lists, any declarations),
    every class of it and all names — with the class-level rule computed DECLARATIVELY
-   (own, then bases in order; longest matching wildcard) and the model running the sorted
-   tables of update_traits_class_dict with its caching. *)
+   (own, then the direct bases in order, each with what it inherited; longest matching
+   wildcard) and the model running the sorted tables of update_traits_class_dict with its
+   caching.  [spec_rule] reads "inherited" as the code does; the law that is evaluated on
+   the implementation uses [mro_rule] ("inherited" along the MRO): see the next theorems. *)
 Theorem law_holds_on_every_history :
   forall (h : list classdef) (c : nat) (ops : list op) (i : Z),
     clean_run (snd (class_tables h c)) (init_state (fst (class_tables h c))) ops = true ->
@@ -25,7 +27,49 @@ Theorem law_holds_on_every_history :
 Proof. exact law_all_histories. Qed.
 Print Assumptions law_holds_on_every_history.
 
-(* ... and the hypothesis cannot be dropped: o.ab = 5; o.add_trait('ab', Event()); o.ab *)
+(* The law as evaluated on the implementation ("inherited" = along the C3 method resolution
+   order): it holds wherever the two readings of "inherited" give the same rule ... *)
+Theorem law_holds_under_mro_reading :
+  forall (h : list classdef) (c : nat) (ops : list op) (i : Z),
+    (forall n, mro_rule h c n = spec_rule h c n) ->
+    clean_run (snd (class_tables h c)) (init_state (fst (class_tables h c))) ops = true ->
+    law_hist (mro_rule h c) i l_init
+             (run (snd (class_tables h c)) (init_state (fst (class_tables h c))) ops) = [].
+Proof. exact law_all_histories_mro. Qed.
+Print Assumptions law_holds_under_mro_reading.
+
+(* ... which is the case for every class of every single-inheritance hierarchy (any depth) *)
+Theorem mro_and_base_order_agree_on_single_inheritance :
+  forall (h : list classdef) (c : nat) (n : name),
+    single h = true -> (c < length (roots ++ h))%nat -> mro_rule h c n = spec_rule h c n.
+Proof. exact mro_spec_single. Qed.
+Print Assumptions mro_and_base_order_agree_on_single_inheritance.
+
+Theorem law_holds_on_single_inheritance_hierarchies :
+  forall (h : list classdef) (c : nat) (ops : list op) (i : Z),
+    single h = true -> (c < length (roots ++ h))%nat ->
+    clean_run (snd (class_tables h c)) (init_state (fst (class_tables h c))) ops = true ->
+    law_hist (mro_rule h c) i l_init
+             (run (snd (class_tables h c)) (init_state (fst (class_tables h c))) ops) = [].
+Proof. exact law_single_inheritance. Qed.
+Print Assumptions law_holds_on_single_inheritance_hierarchies.
+
+(* ... and fails in diamonds (listed finding): class A(HasTraits): pass;
+   class K(A, HasStrictTraits): pass; K().ab = 5 is accepted *)
+Theorem inheritance_not_by_mro_refuted : exists h c ops,
+  clean_run (snd (class_tables h c)) (init_state (fst (class_tables h c))) ops = true /\
+  law_hist (mro_rule h c) 0 l_init
+           (run (snd (class_tables h c)) (init_state (fst (class_tables h c))) ops) <> [].
+Proof. exact mro_refutes. Qed.
+Print Assumptions inheritance_not_by_mro_refuted.
+
+(* the checker's [law_codes] only re-labels failures: it is empty exactly when [law_hist] is *)
+Theorem law_codes_relabelling_is_faithful :
+  forall mr sr h i ls, law_tag mr sr i ls h = [] <-> law_hist mr i ls h = [].
+Proof. exact law_tag_nil. Qed.
+Print Assumptions law_codes_relabelling_is_faithful.
+
+(* ... and the hypothesis [clean_run] cannot be dropped: o.ab = 5; o.add_trait('ab', Event()); o.ab *)
 Theorem law_without_clean_hypothesis_refuted : exists ops,
   law_hist (spec_rule [mkClass [] [0%nat]] 3) 0 l_init
     (run (snd (class_tables [mkClass [] [0%nat]] 3)) (init_state (fst (class_tables [mkClass [] [0%nat]] 3))) ops)
@@ -116,6 +160,18 @@ Theorem event_write_only :
     assoc n (s_od (fst (step pt s (OSet n v)))) = assoc n (s_od s).
 Proof. exact event_wo. Qed.
 Print Assumptions event_write_only.
+
+(* a typed trait (Int, Str, CInt, ... any validator [VFun f]) accepts exactly what its own
+   validator accepts and stores the validated value *)
+Theorem typed_names_validate :
+  forall ct pt s ls n k d v, Inv ct pt s ls -> gov ct pt s n = RPol (PTyped k d) -> v <> VUndef ->
+    let s1 := fst (step pt s (OSet n v)) in
+    match validate k v with
+    | Some w => o_out (snd (step pt s (OSet n v))) = Done /\ o_out (snd (step pt s1 (OGet n))) = Val w
+    | None => o_out (snd (step pt s (OSet n v))) = Raise TraitError /\ assoc n (s_od s1) = assoc n (s_od s)
+    end.
+Proof. exact typed_validates. Qed.
+Print Assumptions typed_names_validate.
 
 (* in reachable states nothing is stored under Disallow / Constant / Event, so the
    side conditions [assoc n (s_od s) = None] above always hold there *)
